@@ -110,6 +110,12 @@ type Server struct {
 	// optional second fault of the same run (FaultKind2 == FaultNone: none)
 	FaultAt2, FaultKind2 int
 
+	// FaultPlan (optional): the n-th counted request fails with FaultPlan[n]
+	// (FaultNone = goes through); counted like FaultAt. OnFault, when set, runs
+	// after each planned fault (e.g. "another writer gets in").
+	FaultPlan []int
+	OnFault   func(n int)
+
 	// Mu serialises the requests (the verbs may be called from several
 	// goroutines: concurrent syncs, per-revision hook calls).
 	Mu sync.Mutex
@@ -215,6 +221,13 @@ func (c *rc) begin(verb, name, sub string) (*Req, error) {
 		if s.FaultOnlyResource == "" || s.FaultOnlyResource == c.gvr.Resource {
 			n := s.faultSeq
 			s.faultSeq++
+			if n < len(s.FaultPlan) && s.FaultPlan[n] != FaultNone {
+				req.Err = MakeError(s.FaultPlan[n], c.gr(), name)
+				if s.OnFault != nil {
+					s.OnFault(n)
+				}
+				return req, req.Err
+			}
 			if s.FaultKind2 != FaultNone && n == s.FaultAt2 {
 				req.Err = MakeError(s.FaultKind2, c.gr(), name)
 				return req, req.Err
